@@ -74,6 +74,16 @@ def run_one(ctl: explorer.Ctl, cfg: Dict[str, Any]) -> Dict[str, Any]:
 
     def on_stdin(data: bytes):
         # the scripted server: answer a request line
+        if b'"method":"initialize"' in data or b'"method": "initialize"' in data:
+            import json as _json
+            try:
+                rid = _json.loads(data.decode("utf-8").strip().splitlines()[0]).get("id")
+            except Exception:
+                rid = None
+            proc.stdout.feed((_json.dumps({"jsonrpc": "2.0", "id": rid, "result": {
+                "protocolVersion": "2025-06-18", "capabilities": {}, "serverInfo": {"name": "fake", "version": "1"}}})
+                + "\n").encode())
+            return
         if b'"method":"tools/list"' in data or b'"method": "tools/list"' in data:
             if b == "exit-on-request":
                 proc.exit(0)
@@ -148,9 +158,24 @@ def run_one(ctl: explorer.Ctl, cfg: Dict[str, Any]) -> Dict[str, Any]:
     async def use_client():
         with seams.patched_open_process(_factory) as pp:
             info["pp"] = pp
-            async with stdio_client(seams.stdio_params()) as (read, write):
-                info["entered"] = loop.time()
-                await body(read, write)
+            entry = cfg.get("entry", "stdio_client")
+            if entry == "transport":
+                from chuk_mcp.transports.stdio.transport import StdioTransport
+
+                async with StdioTransport(seams.stdio_params()) as tr:
+                    read, write = await tr.get_streams()
+                    info["entered"] = loop.time()
+                    await body(read, write)
+            elif entry == "with_initialize":
+                from chuk_mcp.transports.stdio.stdio_client import stdio_client_with_initialize
+
+                async with stdio_client_with_initialize(seams.stdio_params(), timeout=2.0) as (read, write, init):
+                    info["entered"] = loop.time()
+                    await body(read, write)
+            else:
+                async with stdio_client(seams.stdio_params()) as (read, write):
+                    info["entered"] = loop.time()
+                    await body(read, write)
 
     spawn_state = {}
 
@@ -205,12 +230,12 @@ def run_one(ctl: explorer.Ctl, cfg: Dict[str, Any]) -> Dict[str, Any]:
     status, val = loop.run_main(main())
     errors = loop.collect_errors()
     loop.abandon()
-    obs: Dict[str, Any] = {"status": status, "cfg": f"{b}/{ex}/{mo}/{cfg.get('order')}"}
+    obs: Dict[str, Any] = {"status": status, "cfg": f"{b}/{ex}/{mo}/{cfg.get('order')}/{cfg.get('entry', 'stdio_client')}"}
     viol: List[dict] = []
 
     def bad(cls, msg, **extra):
         viol.append({"sig": {"class": cls, "exit": ex, **extra},
-                     "msg": f"behaviour={b} exit={ex} moment={mo} order={cfg.get('order')} term={cfg.get('term_delay', 0.0)} "
+                     "msg": f"entry={cfg.get('entry', 'stdio_client')} behaviour={b} exit={ex} moment={mo} order={cfg.get('order')} term={cfg.get('term_delay', 0.0)} "
                             f"kill={cfg.get('kill_delay', 0.0)}: {msg}"})
 
     if status != "ok":
@@ -324,6 +349,15 @@ RUN_OPEN = "vf.checks.c16:run_open_fail"
 def configs_for(tier: str):
     base = [{"behaviour": b, "exit": e, "moment": m, "order": o} for b in BEHAVIOURS for e in EXITS for m in MOMENTS
             for o in ("fifo", "lifo")]
+    # the other public entry points onto the same client: the Transport wrapper and the initializing context
+    for entry in ("transport", "with_initialize"):
+        behs = BEHAVIOURS if tier == "thorough" else ["well", "ignore-term", "ignore-both", "stdout-flood", "exit-on-request"]
+        if entry == "with_initialize":
+            # behaviours under which the handshake itself can complete
+            behs = [b for b in behs if b in ("well", "slow-exit-0.5", "ignore-term", "ignore-both", "stdout-flood",
+                                             "exit-on-request", "exit-after-response", "slow-start")]
+        base += [{"behaviour": b, "exit": e, "moment": m, "order": o, "entry": entry} for b in behs for e in EXITS
+                 for m in MOMENTS for o in ("fifo", "lifo")]
     # grace-period boundaries: child obeys terminate / kill after a delay
     delays_t = [0.0, 0.5, 1.0 - EPS, 1.0, 1.0 + EPS, None]
     delays_k = [0.0, 0.5, 1.0 - EPS, 1.0, 1.0 + EPS, None]
